@@ -22,9 +22,10 @@ def main():
     ok = ck.lean_gate(['BctVerif.Props.C12'], extra_modules=['BctVerif.Model.Dist'])
     if ck.tier == 'thorough' and ok:
         ck.leanchecker(['BctVerif.Props.C12', 'BctVerif.Model.Dist'])
-    if ck.replay:
-        cases = [json.load(open(ck.replay))['case']['case']]
-    else:
+    rp = json.load(open(ck.replay)) if ck.replay else None
+    if rp is not None and isinstance(rp.get('case'), dict) and 'case' in rp['case']:
+        cases = [rp['case']['case']]
+    else:      # no replay, or a `no-failing-input-found` replay: run the whole tier
         cases = [dict(c, only='floyd') for c in dc.gen_dist_cases(ck.rs, ck.tier) if c['kind'] in ('bin', 'wei', 'log', 'flt')]
         cases += dc.gen_nav_cases(ck.rs, ck.tier)
     results = pmap(dc.run_case, cases)
